@@ -407,12 +407,13 @@ structure Plan where
   deriving Repr, Inhabited
 
 def rekeyOpt (p : Policy) (r : Option Rew) (oldActs newActs : Option (List Val)) : Except Err (Option Rew) :=
-  match r with
-  | none => .ok none
-  | some r =>
-    match p with
-    | .keep => .ok (some r)
-    | _ => match oldActs, newActs with
+  match p with
+  | .keep => .ok r
+  | _ =>
+    match r with
+    | none => .error .keyError          -- `old[target]` on an interaction that lacks the target
+    | some r =>
+      match oldActs, newActs with
       | some o, some n => match rekey p r o n with | .ok r' => .ok (some r') | .error e => .error e
       | _, _ => .error .keyError
 
@@ -1059,7 +1060,7 @@ def noisePlans (cfg : Cfg) (nc na : Option NoiseSpec) (oracle : List Rat) (s : L
           let polR := match I.rewards with
             | some _ => if rC then Policy.generic else Policy.toList
             | none => Policy.keep
-          let polF := if cfg.fixNoiseFeedbacks && fC && I.actions.isSome then Policy.generic else Policy.keep
+          let polF := if cfg.fixNoiseFeedbacks && fC && I.actions.isSome && I.feedbacks.isSome then Policy.generic else Policy.keep
           match go orc2 rest with
           | .error e => .error e
           | .ok ps => .ok ({ context := ctx, actions := acts, action := act, polR := polR, polF := polF } :: ps)
@@ -1253,5 +1254,37 @@ def chainHypB (cfg : Cfg) : List Step → State → Bool
      | .unbatch => true
      | _ => primsHypB cfg (expandStep st) S.stream)
     && (match runStep cfg st S with | .ok S' => chainHypB cfg rest S' | .error _ => true)
+
+
+/-! ## Prop-level vocabulary of the theorems -/
+
+/-- pairwise distinct under Python `==` (an action *set*), every element equal to itself -/
+def Distinct (as : List Val) : Prop :=
+  ∀ (i j : Nat) (a b : Val), as[i]? = some a → as[j]? = some b → pyEq a b = (i == j)
+
+/-- the action list Sparsify produces -/
+def sparsifyActs (a : Bool) (as : List Val) : List Val := if a then as.map (makeSparse "action") else as
+
+/-- does the chain keep the stream aligned (a chain that raises has nothing to misalign) -/
+def keepsAligned (cfg : Cfg) (chain : List Step) (s : List Inter) : Bool :=
+  match runChain cfg chain { stream := s } with
+  | .ok S' => alignedStreamB s S'.stream
+  | .error _ => true
+
+/-! ### witnesses of the recorded defects (replayed on the real code by the harness) -/
+def catA : Val := .cat "a" ["a", "b"]
+def catB : Val := .cat "b" ["a", "b"]
+def wRekey : List Inter := [{ actions := some [.num 1, .num 2], rewards := some (.binary (.num 2) 1) }]
+def wReprLogged : List Inter :=
+  [{ actions := some [catA, catB], action := some catB, reward := some (1/2), probability := some (1/4) }]
+def wReprDiscrete : List Inter := [{ actions := some [catA, catB], rewards := some (.discrete [catB, catA] [1, 2] 0 false) }]
+def wNoiseLogged : List Inter :=
+  [{ actions := some [.num 1, .num 2], action := some (.num 2), reward := some (1/2), probability := some (1/4) }]
+def wNoiseFeedbacks : List Inter :=
+  [{ actions := some [.num 1, .num 2], rewards := some (.seq true [1, 2]),
+     feedbacks := some (.fn [(.num 1, 5), (.num 2, 6)] (-999)) }]
+def wFlattenLogged : List Inter :=
+  [{ actions := some [.tuple [.num 1, .tuple [.num 2]], .tuple [.num 3, .tuple [.num 4]]],
+     action := some (.tuple [.num 3, .tuple [.num 4]]), reward := some (1/2), probability := some (1/4) }]
 
 end Coba.C10
